@@ -110,7 +110,7 @@ func VerifPathLock() {
 			f, err := Open(verifPath, 0600, bad)
 			verifAssert(err != nil && f == nil, "Open with invalid options fails")
 		case 2: // both headers damaged
-			if open == nil && verifOS.disks[verifPath] != nil && len(verifOS.disks[verifPath].data) > 2*verifPageSize {
+			if open == nil && verifOS.disks[verifPath] != nil && len(verifOS.disks[verifPath].data) >= 2*verifPageSize {
 				d := verifOS.disks[verifPath]
 				save0, save1 := d.data[0], d.data[verifPageSize]
 				d.data[0] ^= 0xff
@@ -120,7 +120,7 @@ func VerifPathLock() {
 				d.data[0], d.data[verifPageSize] = save0, save1
 			}
 		case 3: // I/O failure during initialisation
-			if open == nil {
+			if open == nil && verifParam("nofault", 0) == 0 {
 				d := verifOS.disks[verifPath]
 				if d == nil {
 					d = newMemFile(96 * 1024)
